@@ -105,6 +105,11 @@ impl Hist {
     pub fn with_driver(case: &Case, mut drv: Driver, or: Oracles) -> Hist {
         // half of the histories announce the body length the way an unchunked upload does
         drv.content_length = case.salt % 2 == 1;
+        // one history in seven uploads slowly: the second half of every body arrives 11 s to 5 min
+        // (of virtual time) after the first
+        if case.salt % 7 == 3 {
+            drv.stall_secs = [11, 31, 61, 121, 301][(case.salt / 7 % 5) as usize];
+        }
         let clients: Vec<Uuid> = (0..case.nclients).map(|i| crate::case::client_uuid(case.salt, i)).collect();
         Hist {
             drv,
